@@ -36,6 +36,21 @@ CHECKS = {
    text="Every schedule of a hand-rolled single-threaded executor (poll any woken task, complete any pending supplier IO, spurious polls within a budget) is executed on a fresh real Symbolizer for every configuration (task-symmetric multisets of 2..3 [thorough 4] task scripts over fill_symbol/walk_frame/get_file_path x colliding module keys, supplier suspensions 0..2 [3], answers Ok/NotFound/ParseError). Oracle per execution: supplier asked at most once per module, every requester sees the scripted outcome, no deadlock/lost wake-up, pending counters and stats entries; replay determinism asserted. No deviation cap: complete within the configurations.",
    note="Trusted: poll bodies are atomic (single-threaded executor); real-thread interleavings inside std/futures-util primitives are assumed linearizable (loom/shuttle cannot intercept them here); cancellation excluded by the property.",
    design_ref="3/C12"),
+ "C14": dict(level="exploration", engine="E1",
+   technique="bounded-exhaustive differential enumeration of generated dumps against an independent index / crash-reason model, end to end through process_minidump",
+   text="Every dump of the stated finite products (12 OS ids x 12 CPUs x the whole per-OS exception-record menu incl. codes just outside the enumerations; thread-id patterns x exception thread x Breakpad-info cases x context readability for both sources x CPU x OS; misc-info flags x Linux status x unloaded-module layouts x thread counts up to 32) is generated deterministically, processed by the real code through the public API and compared with a reference computed from the generator parameters: one stack per thread in order with ids and names, dump-writer thread skipped, requesting thread and its frame-0 context, crash reason and address per the documented case analysis, pid/times, per-frame unloaded-module offsets.",
+   note="Trusted: minidump-synth as serialiser, the error-name tables of minidump_common::errors as data, the reference model in procgen.rs; carve-outs (duplicate ids, EXC_RESOURCE detail text) in the evidence assumptions.",
+   design_ref="3/C14"),
+ "C15": dict(level="exploration", engine="E1",
+   technique="bounded-exhaustive enumeration of process states (C14/C19 spaces + hostile-name menu) rendered to JSON, independent strict JSON parser + mechanised schema + cross-field consistency oracle",
+   text="Every process state produced by the C14 spaces, a slice of the C19 space, and a hostile-name menu (each control character, quotes, backslash, non-BMP, U+2028/9, BOM, a 70 000-character name, lossy-decoded bytes) injected through module, thread, function, file and unloaded-module names is rendered with print_json(pretty in {false,true}); the bytes are parsed by a hand-written strict RFC 8259 parser, checked against a mechanisation of json-schema.md (names, types, closed enumerations, hexstrings padded to the pointer width) and for agreement of all redundant fields (counts, frame indices, crashing-thread copy, offsets, modules mirror).",
+   note="Trusted: the mechanised schema transcription and the hand-written JSON parser (serde_json used only as a second opinion). Known finding F17 (unknown OS renders '0x0x...').",
+   design_ref="3/C15"),
+ "C19": dict(level="exploration", engine="E1",
+   technique="bounded-exhaustive product of examined addresses x memory maps x exception kinds x instruction kinds x CPUs through process_minidump, single-bit-neighbour oracle",
+   text="The full product of an address menu (boundary values, every single-bit neighbour of region addresses, non-canonical values), map menus (0..3 [thorough 4] regions x permission rotations, MemoryInfoList and LinuxMaps, incl. a region ending at 2^64-1), 8 exception kinds and instruction-byte kinds is processed end to end on amd64/ppc64/mips64 (and a reduced product on arm64/x86/arm where nothing may be reported); every reported flip must differ from the examined value in exactly one bit inside the platform range, be null or inside a region permitting the access, and never appear when the examined value is itself accessible, for null+offset accesses, or on 32-bit/ARM64; confidences in [0,1].",
+   note="Trusted: the generator's map reference. Soundness only (no completeness claim). F5 (end+1 overflow) was found by this check and repaired.",
+   design_ref="3/C19"),
  "C17": dict(level="exploration", engine="E1",
    technique="exhaustive enumeration of all short strings over a path alphabet through every lookup function, textual path-containment oracle",
    text="Every name of length <= 5 (thorough 6) over {a . / \\ : C NUL e-acute} as debug_file and as code_file (other field from a menu), all pairs of strings <= 3, id menus, real MinidumpModules read back from synthesised dumps; every public lookup function (breakpad_sym_lookup, code_info_breakpad_sym_lookup, extra_debuginfo_lookup, binary_lookup, lookup x 3 kinds, moz_lookup); each returned cache/server path is judged textually (no leading separator, no drive prefix, no '..' component) and by a lexical join onto a root.",
